@@ -71,12 +71,54 @@ def pattern_to_float(size, pattern):
     return struct.unpack(fmt, pattern.to_bytes(size // 8, "big"))[0]
 
 
+class edited_in_place(object):
+    """context: the frame's signals are given another placement (first bit, one bit wide, other byte order, integer); on exit they
+    get their own placement back by assignment to the same Signal objects.  What is computed afterwards must not remember the
+    detour."""
+
+    FIELDS = ("start_bit", "size", "is_little_endian", "is_signed", "is_float")
+
+    def __init__(self, fr):
+        self.fr = fr
+
+    def __enter__(self):
+        self.saved = [(s, [getattr(s, f) for f in self.FIELDS]) for s in self.fr.signals]
+        for s, _ in self.saved:
+            s.is_float = False
+            s.size = 1
+            s.start_bit = 0 if s.is_little_endian else 7
+            s.is_little_endian = not s.is_little_endian
+            s.is_signed = False
+        return self
+
+    def __exit__(self, *exc):
+        for s, vals in self.saved:
+            for f, v in zip(self.FIELDS, vals):
+                setattr(s, f, v)
+        return False
+
+
 def observe_decode(fr, data, api="decode", at=False, ae=False, db=None, _again=True):
-    """the same call is made twice on the same objects: a result that depends on what was decoded before is reported as an error"""
+    """the same call is made twice on the same objects: a result that depends on what was decoded before is reported as an error;
+    so is a result that differs after the signals were moved away and back in place"""
     if _again:
+        if not fr.is_pdu_container and not getattr(fr, "_verif_detour_done", False):
+            # the very first use of these objects is with the signals somewhere else (then moved to their place)
+            fr._verif_detour_done = True
+            with edited_in_place(fr):
+                observe_decode(fr, data, api, at, ae, db, _again=False)
+                observe_encode(fr, [], _again=False)
         first = observe_decode(fr, data, api, at, ae, db, _again=False)
         second = observe_decode(fr, data, api, at, ae, db, _again=False)
-        return first if first == second else {"err": "exc:result-differs-when-repeated"}
+        if first != second:
+            return {"err": "exc:result-differs-when-repeated"}
+        if not fr.is_pdu_container:
+            with edited_in_place(fr):
+                observe_decode(fr, data, api, at, ae, db, _again=False)
+            third = observe_decode(fr, data, api, at, ae, db, _again=False)
+            if first != third:
+                return {"err": "exc:result-differs-after-signals-were-edited-in-place"}
+        return first
     try:
         if api == "unpack":
             d = fr.unpack(bytes(data), allow_truncated=at, allow_exceeded=ae)
@@ -97,17 +139,46 @@ def observe_decode(fr, data, api="decode", at=False, ae=False, db=None, _again=T
     return {"ok": out}
 
 
-def observe_encode(fr, data_pairs, _again=True):
+def observe_encode(fr, data_pairs, _again=True, _shared=None):
     if _again:
+        if not getattr(fr, "_verif_detour_done", False):
+            fr._verif_detour_done = True
+            with edited_in_place(fr):
+                observe_encode(fr, data_pairs, _again=False)
+                try:
+                    fr.decode(bytes(fr.size))
+                except Exception:  # noqa
+                    pass
         first = observe_encode(fr, data_pairs, _again=False)
         second = observe_encode(fr, data_pairs, _again=False)
-        return first if first == second else {"err": "exc:result-differs-when-repeated"}
-    data = {}
+        if first != second:
+            return {"err": "exc:result-differs-when-repeated"}
+        with edited_in_place(fr):
+            observe_encode(fr, data_pairs, _again=False)
+        third = observe_encode(fr, data_pairs, _again=False)
+        if first != third:
+            return {"err": "exc:result-differs-after-signals-were-edited-in-place"}
+        # one values dict used for several calls, with other selector values first: encoding reads the caller's dict, it does not own it
+        mux = next((s for s in fr.signals if s.is_multiplexer and s.muxer_for_signal is None), None)
+        names = [k for k, _ in data_pairs]
+        if mux is not None and mux.name in names and not fr.is_complex_multiplexed:
+            wanted = dict((k, v) for k, v in data_pairs)[mux.name]
+            others = sorted({s.multiplex for s in fr.signals if isinstance(s.multiplex, int) and s.multiplex != wanted})[:2]
+            shared = {}
+            for other in others:
+                observe_encode(fr, [[k, (other if k == mux.name else v)] for k, v in data_pairs], _again=False, _shared=shared)
+            fourth = observe_encode(fr, data_pairs, _again=False, _shared=shared)
+            if first != fourth:
+                return {"err": "exc:result-differs-when-the-callers-values-dict-is-used-again"}
+        return first
+    data = {} if _shared is None else _shared
+    filled = bool(data)
     for k, v in data_pairs:
         s = fr.signal_by_name(k)
         if s is not None and s.is_float:
             v = pattern_to_float(s.size, v)
-        data[k] = v
+        if not filled or (s is not None and s.is_multiplexer):
+            data[k] = v          # a dict that is used again only gets the new selector value
     try:
         b = fr.encode(data)
     except Exception as e:  # noqa
